@@ -32,7 +32,25 @@ func (a PeerAddress) AddTo(m *stun.Message) error {
 
 // GetFrom decodes XOR-PEER-ADDRESS from message.
 func (a *PeerAddress) GetFrom(m *stun.Message) error {
-	return (*stun.XORMappedAddress)(a).GetFromAs(m, stun.AttrXORPeerAddress)
+	if err := (*stun.XORMappedAddress)(a).GetFromAs(m, stun.AttrXORPeerAddress); err != nil {
+		return err
+	}
+
+	return checkXORAddressSize(m, stun.AttrXORPeerAddress, a.IP)
+}
+
+// checkXORAddressSize rejects an address attribute whose address field is
+// shorter than its family requires: stun.XORMappedAddress only rejects fields
+// that are too long and zero-fills short ones.
+func checkXORAddressSize(m *stun.Message, attr stun.AttrType, ip net.IP) error {
+	v, err := m.Get(attr)
+	if err != nil {
+		return err
+	}
+
+	const xorAddressHeaderSize = 4 // reserved, family, port
+
+	return stun.CheckSize(attr, len(v)-xorAddressHeaderSize, len(ip))
 }
 
 // XORPeerAddress implements XOR-PEER-ADDRESS attribute.
